@@ -55,3 +55,100 @@ func matchLen(b []byte, lit string, k int) int {
 //@ loop 0 invariant 0 <= i && i <= len(b) && i <= len(lit)
 //@ loop 0 invariant matchLen(b, lit, i) == matchLen(b, lit, 0)
 //@ loop 0 decreases len(b) - i
+
+// ---------------------------------------------------------------- ParseUint
+//
+// Ghost arithmetic below is mathematical: the verifier never wraps `int` in
+// spec functions, so mathVal is the exact value of a digit string of any length.
+
+//@ spec isDigit
+func isDigit(c byte) bool { return '0' <= c && c <= '9' }
+
+//@ spec allDigits
+func allDigits(b []byte, k int) bool {
+	return vForall(0, k, func(i int) bool { return isDigit(b[i]) })
+}
+
+// mathVal is the value of the decimal digit string b[0:k] (math-only).
+//
+//@ spec mathVal
+func mathVal(b []byte, k int) int {
+	if k <= 0 {
+		return 0
+	}
+	return mathVal(b, k-1)*10 + int(b[k-1]-'0')
+}
+
+// pow10 is 10^n for 0 <= n <= 20 (math-only for n >= 19).
+//
+//@ spec pow10
+func pow10(n int) int {
+	switch n {
+	case 0:
+		return 1
+	case 1:
+		return 10
+	case 2:
+		return 100
+	case 3:
+		return 1000
+	case 4:
+		return 10000
+	case 5:
+		return 100000
+	case 6:
+		return 1000000
+	case 7:
+		return 10000000
+	case 8:
+		return 100000000
+	case 9:
+		return 1000000000
+	case 10:
+		return 10000000000
+	case 11:
+		return 100000000000
+	case 12:
+		return 1000000000000
+	case 13:
+		return 10000000000000
+	case 14:
+		return 100000000000000
+	case 15:
+		return 1000000000000000
+	case 16:
+		return 10000000000000000
+	case 17:
+		return 100000000000000000
+	case 18:
+		return 1000000000000000000
+	case 19:
+		return bigc("10000000000000000000")
+	}
+	return bigc("100000000000000000000")
+}
+
+// uintLitOK: b is a JSON non-negative integer literal (no leading zeros).
+//
+//@ spec uintLitOK
+func uintLitOK(b []byte) bool {
+	return len(b) > 0 && allDigits(b, len(b)) && (b[0] != '0' || len(b) == 1)
+}
+
+//@ func ParseUint
+//@ split
+//@ property C10 C04 C20
+//@ ensures ok-iff: ok == (uintLitOK(b) && mathVal(b, len(b)) < bigc("18446744073709551616"))
+//@ ensures ok-exact: ok ==> v == mathWrap64(mathVal(b, len(b)))
+//@ ensures syntax: !uintLitOK(b) ==> v == 0
+//@ ensures overflow: uintLitOK(b) && !ok ==> v == math.MaxUint64
+//@ loop 0 invariant range: 0 <= n && n <= len(b) && allDigits(b, n)
+//@ loop 0 invariant wrapped: v == mathWrap64(mathVal(b, n))
+//@ loop 0 invariant upper: n <= 20 ==> mathVal(b, n) < pow10(n)
+//@ loop 0 invariant lower: n >= 1 && n <= 20 && b[0] != '0' ==> mathVal(b, n) >= pow10(n-1)
+//@ loop 0 invariant lead1: n >= 1 && n <= 20 && b[0] == '1' ==> mathVal(b, n) < 2*pow10(n-1)
+//@ loop 0 invariant huge: n >= 21 && b[0] != '0' ==> mathVal(b, n) >= bigc("100000000000000000000")
+//@ loop 0 invariant nonneg: mathVal(b, n) >= 0
+//@ loop 0 invariant small: 1 <= n && n <= 19 ==> pow10(n) <= bigc("10000000000000000000") && pow10(n-1) >= 1
+//@ loop 0 invariant at20: n == 20 ==> pow10(n) == bigc("100000000000000000000") && pow10(n-1) == bigc("10000000000000000000")
+//@ loop 0 decreases len(b) - n
